@@ -109,7 +109,9 @@ int main(void)
 			free_tree();
 			tree.root = parse(NULL);
 			printf("OK\n");
-		} else if (!strcmp(op, "ins")) {
+		} else if (!strcmp(op, "ins") || !strcmp(op, "insh")) {
+			/* insh <h> <k>: the node object still carries height h (1 = it was a leaf when it was deleted from a tree earlier) */
+			int stale_h = !strcmp(op, "insh") ? atoi(strtok(NULL, " \n")) : 77;
 			long k = atol(strtok(NULL, " \n"));
 			struct n *nn = calloc(1, sizeof(*nn));
 			int rc;
@@ -118,7 +120,7 @@ int main(void)
 			 * every link field holds garbage that insert must overwrite — a valid but foreign node, so that a dump or a
 			 * traversal that follows a forgotten link shows up as extra keys instead of crashing */
 			nn->an.left = nn->an.right = nn->an.parent = &stale.an;
-			nn->an.height = 77;
+			nn->an.height = stale_h;
 			rc = iv_avl_tree_insert(&tree, &nn->an);
 			if (rc == 0) *slot(k) = nn; else free(nn);
 			printf("RES %d DUMP ", rc);
